@@ -94,6 +94,10 @@ class DispatchStation(VehicleState):
         elif not station.membership.grant_access_to_membership(vehicle.membership):
             msg = f"vehicle {vehicle.id} and station {station.id} don't share a membership"
             return SimulationStateError(msg), None
+        elif station.state.get(self.charger_id) is None:
+            # there is nothing to plug into (or to queue for) at the end of this trip
+            msg = f"station {station.id} does not have charger {self.charger_id}; context: {context}"
+            return SimulationStateError(msg), None
         else:
             result = VehicleState.apply_new_vehicle_state(sim, self.vehicle_id, self)
             return result
